@@ -133,8 +133,9 @@ type recDialer struct {
 	recs    []dialRec
 	groups  map[context.Context]uint64
 	nextGrp uint64
-	mode    string // "fail" | "pipe"
-	served  atomic.Int64
+	mode      string // "fail" | "pipe" | "v6-refused-v4-slow"
+	served    atomic.Int64
+	cancelled atomic.Int64
 }
 
 var errDialRefused = errors.New("verif: dial refused by the recording dialer")
@@ -152,7 +153,20 @@ func (d *recDialer) DialContext(ctx context.Context, network, addr string) (net.
 	}
 	d.recs = append(d.recs, dialRec{Group: g, Addr: addr})
 	d.mu.Unlock()
-	if d.mode != "pipe" {
+	if d.mode == "v6-refused-v4-slow" {
+		// one family is unreachable and fails at once, the other answers after a moment:
+		// the failure must not cost the connection that is about to succeed
+		h, _, _ := net.SplitHostPort(addr)
+		if ip := net.ParseIP(h); ip == nil || ip.To4() == nil {
+			return nil, errDialRefused
+		}
+		select {
+		case <-time.After(2 * time.Millisecond):
+		case <-ctx.Done():
+			d.cancelled.Add(1)
+			return nil, ctx.Err()
+		}
+	} else if d.mode != "pipe" {
 		return nil, errDialRefused
 	}
 	c1, c2 := net.Pipe()
@@ -228,6 +242,7 @@ func runDNSCase(run *ev.Run, fd *fakeDNS, cs dnsCase) {
 	defer atk.Stop() // ends the refresh goroutine
 	dial := tr.DialContext
 	port := "8080"
+	var dialErrs atomic.Int64
 	viol := func(clause, class, note string, extra map[string]any) {
 		d := map[string]any{"case": cs, "note": note}
 		for k, v := range extra {
@@ -253,6 +268,8 @@ func runDNSCase(run *ev.Run, fd *fakeDNS, cs dnsCase) {
 					c, err := dial(ctx, "tcp", net.JoinHostPort(cs.Host, port))
 					if err == nil {
 						c.Close()
+					} else {
+						dialErrs.Add(1)
 					}
 					cancel()
 				}
@@ -263,6 +280,17 @@ func runDNSCase(run *ev.Run, fd *fakeDNS, cs dnsCase) {
 	recs := rd.take()
 	run.Eval(1)
 	run.Count("dns_histories", 1)
+	if cs.Mode == "v6-refused-v4-slow" && cs.Via == "transport" {
+		has4 := false
+		for _, ip := range cs.IPs {
+			has4 = has4 || isV4(ip)
+		}
+		run.Count("dials_with_one_family_refused", int64(cs.Dials))
+		if has4 && (dialErrs.Load() > 0 || rd.cancelled.Load() > 0) {
+			viol("healthy-family-dial-lost", "one-family-refused", fmt.Sprintf("%d of %d connection attempts failed (%d IPv4 dials were cancelled) although an IPv4 address of the host accepts connections; only its IPv6 addresses refuse", dialErrs.Load(), cs.Dials, rd.cancelled.Load()), nil)
+			return
+		}
+	}
 	run.Count("dial_attempts_recorded", int64(len(recs)))
 
 	resolved := map[string]bool{}
@@ -670,12 +698,18 @@ func c18Child(c *Ctx) int {
 				IPs:     randomIPs(rng, shard*100+i),
 				TTL:     []string{"0s", "0s", "50ms", "1h"}[rng.Intn(4)],
 				Workers: []int{1, 1, 2, 8, 64}[rng.Intn(5)],
-				Mode:    []string{"fail", "fail", "fail", "pipe"}[rng.Intn(4)],
+				Mode:    []string{"fail", "fail", "fail", "pipe", "v6-refused-v4-slow"}[rng.Intn(5)],
 				Via:     []string{"transport", "transport", "attack"}[rng.Intn(3)],
 			}
 			cs.Dials = c.Pick(2000, 10000)
 			if cs.Mode == "pipe" || cs.Via == "attack" {
 				cs.Dials = c.Pick(1200, 2400)
+			}
+			if cs.Mode == "v6-refused-v4-slow" {
+				cs.Dials, cs.Via = 800, "transport"
+				if cs.Workers < 8 {
+					cs.Workers = 8
+				}
 			}
 			cs.Dials -= cs.Dials % cs.Workers
 			b, _ := json.Marshal(cs)
